@@ -7,6 +7,7 @@ From NV Require Import Scalar.Ops Model.Common Model.Basis Model.Geom2D Model.Vo
   Proofs.Boehm Proofs.BasisR Proofs.Geom2DR Proofs.VoxelR.
 From NV Require Import Proofs.HullContains.
 From NV Require Import Proofs.WindingConvex.
+From NV Require Import Proofs.RaySkew.
 Import ListNotations.
 Open Scope R_scope.
 
@@ -240,3 +241,122 @@ Example C20_wn_local_left_turns_insufficient :
   wn_poly Rops [1; 1] (closed exStar) = true /\
   ~ (forall i, (i < n)%nat -> 0 < is_left Rops (List.nth i exStar []) (List.nth (S i mod n) exStar []) [1; 1]).
 Proof. exact local_left_turns_insufficient. Qed.
+
+(* ====================== round 2 (Proofs/RaySkew.v): 3-D rays - feet of the common perpendicular, SKEW / INTERSECT classification ====================== *)
+
+Open Scope R_scope.
+
+(* ---- C20, 3-D rays, non-parallel branch (Proofs/RaySkew.v).  Vocabulary (all over the model's own functions):
+   ray_cross r1 r2 = d1 x d2;  ray_cc = |d1 x d2|^2;  ray_triple = (p2 - p1).(d1 x d2) (scalar triple product);
+   line_dist = |ray_triple| / sqrt ray_cc (distance of the two lines);  foot1 / foot2 = the parameters the code computes,
+   ((p2-p1) x d2).(d1 x d2) / |d1 x d2|^2 and ((p2-p1) x d1).(d1 x d2) / |d1 x d2|^2;
+   conn r1 r2 s1 s2 = ray2(s2) - ray1(s1);  lines_meet r1 r2 = exists s1 s2, ray1(s1) = ray2(s2). *)
+
+(* [G] (a) the returned parameters are the feet of the common perpendicular: the connecting vector of the two returned
+   points is orthogonal to both directions, they are the ONLY such pair, and they minimise the distance between a point of
+   line 1 and a point of line 2 (least squares) *)
+Theorem C20_skew_parameters_are_common_perpendicular_feet :
+  forall p1x p1y p1z p2x p2y p2z q1x q1y q1z q2x q2y q2z : R,
+  let r1 := ([p1x; p1y; p1z], [p2x; p2y; p2z]) in
+  let r2 := ([q1x; q1y; q1z], [q2x; q2y; q2z]) in
+  ray_cc r1 r2 <> 0 ->
+  (vdot Rops (conn r1 r2 (foot1 r1 r2) (foot2 r1 r2)) (ray_d Rops r1) = 0 /\
+   vdot Rops (conn r1 r2 (foot1 r1 r2) (foot2 r1 r2)) (ray_d Rops r2) = 0) /\
+  (forall s1 s2, vdot Rops (conn r1 r2 s1 s2) (ray_d Rops r1) = 0 -> vdot Rops (conn r1 r2 s1 s2) (ray_d Rops r2) = 0 ->
+                 s1 = foot1 r1 r2 /\ s2 = foot2 r1 r2) /\
+  (forall s1 s2, dist2 Rops (ray_eval Rops r1 (foot1 r1 r2)) (ray_eval Rops r2 (foot2 r1 r2)) <=
+                 dist2 Rops (ray_eval Rops r1 s1) (ray_eval Rops r2 s2)) /\
+  dist2 Rops (ray_eval Rops r1 (foot1 r1 r2)) (ray_eval Rops r2 (foot2 r1 r2)) = line_dist r1 r2 * line_dist r1 r2.
+Proof.
+  intros. split; [exact (feet_perpendicular _ _ _ _ _ _ _ _ _ _ _ _ H)|].
+  split; [exact (feet_unique _ _ _ _ _ _ _ _ _ _ _ _ H)|].
+  split; [exact (feet_least_squares _ _ _ _ _ _ _ _ _ _ _ _ H)|exact (feet_dist_sqr _ _ _ _ _ _ _ _ _ _ _ _ H)].
+Qed.
+Print Assumptions C20_skew_parameters_are_common_perpendicular_feet.
+
+(* [G] (b) non-parallel 3-D rays (cross product not below the tolerance): intersect returns the feet; status = SKEW iff the
+   distance of the lines |(p2-p1).(d1 x d2)| / |d1 x d2| is >= tol iff the evaluated points are >= tol apart;
+   status = INTERSECT iff that distance is < tol; never COLINEAR *)
+Theorem C20_skew_status_iff_line_distance :
+  forall p1x p1y p1z p2x p2y p2z q1x q1y q1z q2x q2y q2z tol : R,
+  let r1 := ([p1x; p1y; p1z], [p2x; p2y; p2z]) in
+  let r2 := ([q1x; q1y; q1z], [q2x; q2y; q2z]) in
+  0 < tol -> vector_is_zero Rops tol (ray_cross r1 r2) = false ->
+  let '(t1, t2, st) := intersect3d Rops tol r1 r2 in
+  t1 = foot1 r1 r2 /\ t2 = foot2 r1 r2 /\
+  (st = SKEW <-> tol <= line_dist r1 r2) /\
+  (st = INTERSECT <-> line_dist r1 r2 < tol) /\
+  (st = SKEW <-> tol * tol <= dist2 Rops (ray_eval Rops r1 t1) (ray_eval Rops r2 t2)) /\
+  (st = SKEW <-> tol * tol * ray_cc r1 r2 <= ray_triple r1 r2 * ray_triple r1 r2) /\
+  st <> COLINEAR.
+Proof. exact intersect3d_skew_iff. Qed.
+Print Assumptions C20_skew_status_iff_line_distance.
+
+(* [G] lines that do not meet, tolerance not above their distance: the answer is (feet, SKEW); such a tolerance exists *)
+Theorem C20_nonmeeting_rays_skew :
+  forall p1x p1y p1z p2x p2y p2z q1x q1y q1z q2x q2y q2z tol : R,
+  let r1 := ([p1x; p1y; p1z], [p2x; p2y; p2z]) in
+  let r2 := ([q1x; q1y; q1z], [q2x; q2y; q2z]) in
+  0 < tol -> vector_is_zero Rops tol (ray_cross r1 r2) = false ->
+  ~ lines_meet r1 r2 ->
+  tol <= Rabs (ray_triple r1 r2) / sqrt (ray_cc r1 r2) ->
+  intersect3d Rops tol r1 r2 = (foot1 r1 r2, foot2 r1 r2, SKEW).
+Proof. exact intersect3d_nonmeeting_skew. Qed.
+Print Assumptions C20_nonmeeting_rays_skew.
+
+(* [G] conversely INTERSECT means: the evaluated points are within tol, the lines are closer than tol, and the returned
+   points are the closest pair *)
+Theorem C20_intersect_status_within_tol :
+  forall p1x p1y p1z p2x p2y p2z q1x q1y q1z q2x q2y q2z tol t1 t2 : R,
+  let r1 := ([p1x; p1y; p1z], [p2x; p2y; p2z]) in
+  let r2 := ([q1x; q1y; q1z], [q2x; q2y; q2z]) in
+  0 < tol -> vector_is_zero Rops tol (ray_cross r1 r2) = false ->
+  intersect3d Rops tol r1 r2 = (t1, t2, INTERSECT) ->
+  dist2 Rops (ray_eval Rops r1 t1) (ray_eval Rops r2 t2) < tol * tol /\
+  line_dist r1 r2 < tol /\
+  (forall s1 s2, dist2 Rops (ray_eval Rops r1 t1) (ray_eval Rops r2 t2) <=
+                 dist2 Rops (ray_eval Rops r1 s1) (ray_eval Rops r2 s2)).
+Proof. exact intersect3d_intersect_within_tol. Qed.
+Print Assumptions C20_intersect_status_within_tol.
+
+(* [G] exact classification of non-parallel lines: they meet iff the triple product is zero; then EVERY positive tolerance
+   (that does not already call them colinear) answers INTERSECT with coinciding points; otherwise the distance is positive
+   and every tolerance up to it answers SKEW *)
+Theorem C20_exact_skew_classification :
+  forall p1x p1y p1z p2x p2y p2z q1x q1y q1z q2x q2y q2z : R,
+  let r1 := ([p1x; p1y; p1z], [p2x; p2y; p2z]) in
+  let r2 := ([q1x; q1y; q1z], [q2x; q2y; q2z]) in
+  ray_cc r1 r2 <> 0 ->
+  (lines_meet r1 r2 <-> ray_triple r1 r2 = 0) /\
+  (ray_triple r1 r2 = 0 -> forall tol, 0 < tol -> vector_is_zero Rops tol (ray_cross r1 r2) = false ->
+     intersect3d Rops tol r1 r2 = (foot1 r1 r2, foot2 r1 r2, INTERSECT) /\
+     ray_eval Rops r1 (foot1 r1 r2) = ray_eval Rops r2 (foot2 r1 r2)) /\
+  (ray_triple r1 r2 <> 0 -> 0 < line_dist r1 r2 /\
+     forall tol, 0 < tol <= line_dist r1 r2 -> vector_is_zero Rops tol (ray_cross r1 r2) = false ->
+     intersect3d Rops tol r1 r2 = (foot1 r1 r2, foot2 r1 r2, SKEW)).
+Proof. exact intersect3d_exact_classification. Qed.
+Print Assumptions C20_exact_skew_classification.
+
+(* [G] the literal tol = 0 call answers SKEW for ALL non-parallel (indeed all) 3-D ray pairs, also when the lines meet
+   exactly: `point_distance < 0` is never true.  "tol = 0: INTERSECT iff the lines meet" is false for the code; the exact
+   statement is C20_exact_skew_classification. *)
+Theorem C20_tol0_never_intersect_refuted :
+  forall p1x p1y p1z p2x p2y p2z q1x q1y q1z q2x q2y q2z : R,
+  let r1 := ([p1x; p1y; p1z], [p2x; p2y; p2z]) in
+  let r2 := ([q1x; q1y; q1z], [q2x; q2y; q2z]) in
+  intersect3d Rops 0 r1 r2 = (foot1 r1 r2, foot2 r1 r2, SKEW).
+Proof. exact intersect3d_tol0_always_skew. Qed.
+Print Assumptions C20_tol0_never_intersect_refuted.
+
+(* [G] 2-D calls (homogeneous embedding, triple product 0) never answer SKEW *)
+Theorem C20_intersect_2d_never_skew : forall tol a1 b1 a2 b2 c1 d1 c2 d2 t1 t2 st, 0 < tol ->
+  intersect Rops tol ([a1; b1], [a2; b2]) ([c1; d1], [c2; d2]) = Ok (t1, t2, st) -> st <> SKEW.
+Proof. exact intersect_2d_never_skew. Qed.
+Print Assumptions C20_intersect_2d_never_skew.
+
+Example C20_example_skew_quantities :
+  ray_triple ([0; 0; 0], [1; 0; 0]) ([0; 1; 1], [0; 2; 1]) = 1 /\
+  ray_cc ([0; 0; 0], [1; 0; 0]) ([0; 1; 1], [0; 2; 1]) = 1 /\
+  foot1 ([0; 0; 0], [1; 0; 0]) ([0; 1; 1], [0; 2; 1]) = 0 /\
+  foot2 ([0; 0; 0], [1; 0; 0]) ([0; 1; 1], [0; 2; 1]) = -1.
+Proof. exact ray_skew_example. Qed.
